@@ -23,9 +23,11 @@ import (
 	"github.com/LemoFoundationLtd/lemochain-core/chain/deputynode"
 	"github.com/LemoFoundationLtd/lemochain-core/chain/params"
 	"github.com/LemoFoundationLtd/lemochain-core/chain/types"
+	"github.com/LemoFoundationLtd/lemochain-core/common"
 )
 
 func c02InsertVerdict(n *Node, b *types.Block) (string, string) {
+	consensus.VerifSetSigCache(common.Hash{}, nil) // see runCase: one process, several identities
 	return SafeMsg(func() string {
 		err := n.Insert(CloneBlock(b))
 		switch err {
